@@ -68,7 +68,7 @@ RULES = [
      "fn codepoint_len<B: Copy + PartialOrd<u8>>(b: B) -> usize {"),
     ("R10", "lib.rs",
      "mod vm;\n",
-     "mod vm;\n#[allow(missing_docs, missing_debug_implementations)]\npub mod symtext;\n#[allow(missing_docs, missing_debug_implementations)]\npub mod engine;\n#[allow(missing_docs, missing_debug_implementations)]\npub mod hirmodel;\n#[allow(missing_docs, missing_debug_implementations)]\npub mod refsem;\n#[allow(missing_docs, missing_debug_implementations)]\npub mod corpus;\n#[allow(missing_docs, missing_debug_implementations)]\npub mod props;\n#[allow(missing_docs, missing_debug_implementations)]\npub mod props2;\n#[allow(missing_docs, missing_debug_implementations)]\npub mod props3;\n#[allow(missing_docs, missing_debug_implementations)]\npub mod unparse;\n#[allow(missing_docs, missing_debug_implementations)]\npub mod symx_api;\n"),
+     "mod vm;\n#[allow(missing_docs, missing_debug_implementations)]\npub mod symtext;\n#[allow(missing_docs, missing_debug_implementations)]\npub mod engine;\n#[allow(missing_docs, missing_debug_implementations)]\npub mod hirmodel;\n#[allow(missing_docs, missing_debug_implementations)]\npub mod refsem;\n#[allow(missing_docs, missing_debug_implementations)]\npub mod corpus;\n#[allow(missing_docs, missing_debug_implementations)]\npub mod props;\n#[allow(missing_docs, missing_debug_implementations)]\npub mod props2;\n#[allow(missing_docs, missing_debug_implementations)]\npub mod props3;\n#[allow(missing_docs, missing_debug_implementations)]\npub mod exprgen;\n#[allow(missing_docs, missing_debug_implementations)]\npub mod unparse;\n#[allow(missing_docs, missing_debug_implementations)]\npub mod symx_api;\n"),
     # ---- lib.rs: the three calls of the wrapped automaton -------------------
     ("R11", "lib.rs",
      "            RegexImpl::Wrap { inner, .. } => Ok(inner\n                .search(&RaInput::new(text).span(pos..text.len()))\n                .map(|m| Match::new(text, m.start(), m.end()))),\n",
@@ -117,6 +117,9 @@ RULES = [
     ("I3i", "vm.rs",
      "                    let count = state.stack_pop();\n",
      "                    let count = state.stack_pop();\n                    crate::symx_api::shadow_stack_popped(count);\n"),
+    ("I3j", "vm.rs",
+     "                Insn::FailNegativeLookAround => {\n",
+     "                Insn::FailNegativeLookAround => {\n                    crate::symx_api::shadow_neg_enter(pc);\n"),
     ("I3c", "vm.rs",
      "        self.stack.truncate(count);\n        self.oldsave.truncate(oldsave_ix);\n        self.nsave = oldsave_ix - oldsave_start;\n",
      "        self.stack.truncate(count);\n        self.oldsave.truncate(oldsave_ix);\n        self.nsave = oldsave_ix - oldsave_start;\n        crate::symx_api::shadow_cut(count, &self.saves, self.stack.len());\n"),
@@ -131,7 +134,7 @@ FALLBACKS = {
             "    let bytes_owned = crate::symtext::Text::representative_bytes(s);\n    let bytes: &[u8] = &bytes_owned;\n    loop {\n        ix -= 1;")),
 }
 
-OPTIONAL = {"I3a", "I3b", "I3c", "I3d", "I3e", "I3f", "I3g", "I3h", "I3i"}
+OPTIONAL = {"I3a", "I3b", "I3c", "I3d", "I3e", "I3f", "I3g", "I3h", "I3i", "I3j"}
 
 
 def die(msg):
